@@ -147,6 +147,22 @@ CLAIMED['C13'] = dict(
          'concrete listener configurations on the real Connection, exhaustive type-filter hierarchy.',
     design='§6 C13')
 
+CLAIMED['C14'] = dict(
+    text='Connection._handle_exception is verified from its real source for a handler list of ANY length (for-loop invariant; '
+         'handlers abstract: match relation, return or raise a fresh exception), each iteration against one step of the '
+         'try/except-chain fold of the statement: a handler is called only on a match, with the current exception and its '
+         'exc_info, at most once; returning catches and stops; raising replaces the exception. Then: the final handler (None / '
+         'False / returning / raising function) runs on every non-suppressed path with the current exception, the last exception '
+         'is recorded, disconnect(immediate=True) happens exactly when the successor-or-current thread is interrupted, and the '
+         'exception is re-raised iff no final handler is configured and nothing caught. NetworkingThread.run: over all abstract '
+         'behaviours of _run/_handle_exit/_handle_exception and predecessor states - interrupt set before routing, routed exactly '
+         'once, slot cleared under the lock on EVERY path (also BaseException), predecessor joined before any _run step. '
+         'register_exception_handler: head insertion for early, append otherwise.',
+    note='Trusted: handlers do not mutate the handler list during traversal; sys.exc_info() semantics; RLock/join semantics. '
+         'The composition "each step refines the fold step => the loop computes the fold" is the standard invariant argument. '
+         'Bounded: seeded concrete handler chains against an independent fold on the real code.',
+    design='§6 C14')
+
 PLANNED = {
     'C01': 'check not built yet (DESIGN §6 C01): frame contracts on Packet.write/_write_buffer/read_packet',
     'C02': 'check not built yet (DESIGN §6 C02)',
